@@ -462,7 +462,7 @@ for ke in ["[-2]", "[-3]", "[0]", "[-1]", "[1:] | [0]", "@[-2]", "sum(@)"]:
 # a multi-select list / hash followed at once by every postfix operator, on a null current node (behind a pipe, on a null element inside
 # an expression reference, on the null document) and on a non-null one: a multi-select on null IS null, nothing of it is evaluated
 mdoc2 = {"a": [1], "b": [2, 3], "c": {}, "s": "x"}
-mss = ["[a, b]", "[@, `1`]", "[length(@)]", "{x: a, y: b}", "[a]", "[`1`, `2`]", "{k: `1`}", "[nosuch(@)]"]
+mss = ["[a, b]", "[@, `1`]", "[length(@)]", "{x: a, y: b}", "[a]", "[`1`, `2`]", "{k: `1`}", "[nosuch(@)]", "{n: length(@)}", "{k: b, n: abs(@)}", "{n: nosuch(@)}"]
 mposts = ["[]", "[0]", "[-1]", "[*]", "[:1]", "[?@]", " | [0]", ".x", ".*", "[][]", "[] | [0]", " | length(@)", "[*][0]", " || 'dflt'", " && `1`", " == `null`", "[0] == `null`"]
 for m, q in itertools.product(mss, mposts):
     for pre in ["", "nope | ", "c.nope | ", "a | ", "c | ", "@ | ", "s | "]:
@@ -509,12 +509,86 @@ zdoc = {"foo": list(range(12))}
 for t in ["foo[01]", "foo[010]", "foo[00]", "foo[01:03]", "foo[1:03]", "foo[:011]", "foo[::02]", "foo[00:]", "foo[009::-3]", "foo[*] | [02:5]", "foo[007]", "foo[0011]", "foo[-01]", "foo[-007:]",
           "foo[0:010:02]", "foo[0000000001]", "foo[01][0]", "[foo[01], foo[1]]", "foo[01] == foo[1]", "foo[?@ > `3`][01]", "foo[:-01]", "foo[-00]", "foo[1:][00]"]:
     add("zeropad", t, zdoc)
+# ================================================================ round 8 families
+# ---------------------------------------------------------------- strclass
+# every string function on strings holding characters that text tools treat specially: CR LF (in both orders), combining marks (first, middle,
+# last, alone), zero-width and bidi characters, a surrogate-range neighbour, astral characters: a string is a sequence of code points
+sstrs = ["a\r\nb", "\r\n", "\r\n\r", "c\n\rd", "\n", "\r", "́abc", "éa", "abć", "⃗", "︠z", "ẍy", "a​b", "‮abc", "퟿", "\U0001F600a\U0001F1E9\U0001F1EA",
+         "ab", ""]
+sdoc3 = {"a": sstrs, "s": "a\r\nb", "m": "́abc", "k": [{"s": x, "i": i} for i, x in enumerate(sstrs)]}
+for t in ["a[*].reverse(@)", "a[*].length(@)", "reverse(s)", "reverse(m)", "reverse(reverse(s)) == s", "reverse(reverse(m)) == m", "a[*].reverse(reverse(@))", "join('', a)", "join('\r\n', a[:3])",
+          "a[*].contains(@, '\n')", "a[*].starts_with(@, '\r')", "a[*].ends_with(@, '\n')", "sort(a)", "max(a)", "min(a)", "a[*].to_string(@)", "sort_by(k, &s)[*].i", "max_by(k, &s).i",
+          "min_by(k, &s).i", "a[*].type(@)", "a[?@ == '\r\n']", "a[?contains(@, '́')]", "reverse(a)", "a[*].to_array(@)[0]", "length(join('', a))", "a[*].not_null(@)", "a[*].[reverse(@), @]",
+          "reverse('︠z')", "reverse('a\r\nb')", "length('\r\n')", "'x\r\ny' == 'x\ny'", "contains(a, 'a\r\nb')", "contains(a, 'a\nb')"]:
+    add("strclass", t, sdoc3)
+# ---------------------------------------------------------------- scalarties
+# sort_by / max_by / min_by over SCALAR elements with a computed key that ties: ties keep their original order (first wins), whatever the elements themselves are
+for arr in [["bb", "aa", "c"], [2, 1, -1, -2], [1.7, 1.2, 0.9, 0.1], [3, 2, 1], ["b", "a"], ["ccc", "bb", "aa", "b", "a", "dd"], [-3, 3, -2, 2, -1, 1], [5, "x", 4, "y"], [[2], [1], [3, 0]],
+            [True, False, True], ["b", "B", "a", "A"]]:
+    for ke in ["length(@)", "abs(@)", "floor(@)", "`0`", "type(@)", "'k'", "ceil(@)", "length(to_string(@))", "to_string(type(@))", "length(to_array(@))"]:
+        for f in ("sort_by", "max_by", "min_by"):
+            add("scalarties", "%s(@, &%s)" % (f, ke), arr)
+# ---------------------------------------------------------------- twotokens
+# two delimited tokens (raw string, quoted identifier, JSON literal; each with and without an escaped delimiter inside) in ONE expression, in
+# every order and in several contexts: each token is decoded by itself
+toks2 = ["'it\\'s'", "'x'", "'a\\''", "\"n\"", "\"q\\\"r\"", "`\"b\"`", "`\"x\\`y\"`", "''", "'\\''", "`1`"]
+tdoc2 = {"n": 1, "q\"r": 2, "k": "a'", "rows": [{"k": "a'", "n": 3}, {"k": "x", "n": 4}]}
+for a, b in itertools.product(toks2, toks2):
+    add("twotokens", "[%s, %s]" % (a, b), tdoc2)
+    add("twotokens", "%s == %s" % (a, b), tdoc2)
+for a in toks2[:4] + toks2[6:9]:
+    add("twotokens", "rows[?k == %s].\"n\"" % a, tdoc2)
+    add("twotokens", "{\"a\": %s, b: 'x', \"c\": \"n\"}" % a, tdoc2)
+    add("twotokens", "[%s, 'x', %s, \"n\"]" % (a, a), tdoc2)
+# ---------------------------------------------------------------- deepeq
+# equal (and unequal) values nested 65 and 90 container levels deep under == / != / contains: equality has no depth
+def nest(v, n, obj=False):
+    for _ in range(n):
+        v = {"k": v} if obj else [v]
+    return v
+for n in (63, 64, 65, 66, 90):
+    for obj in (False, True):
+        dd = {"a": nest(1, n, obj), "b": nest(1, n, obj), "c": nest(2, n, obj)}
+        # (as JSON TEXT: the interchange files cannot hold values this deep)
+        for t in ["a == b", "a != b", "a == a", "a == c", "a != c", "[a == b, a != b, a == c]", "contains([a], b)", "contains([c], b)", "[a, c][?@ == b] | length(@)", "@ == @", "a.k == b.k" if obj else "a[0] == b[0]"]:
+            cases.append({"e": "eval", "fam": "deepeq", "text": cps(t), "doctext": cps(json.dumps(dd, separators=(",", ":")))})
+
+# ---------------------------------------------------------------- tonum
+# to_number on strings made of the characters of numbers that are not numbers (and on a few that are): null, never a failure
+tn = ["1e999", "-", "1.", "01", "+1", ".5", "1 2", " ", "2e", "1-2", "1.2.3", "--1", "1e", "e1", "-.5", "0x1", "1_0", "١", "1e+", "1e-", "00", "-0", "1.0e5", "12", "-3.5e-2", "0", "1E3", ""]
+tdoc3 = {"a": tn, "rows": [{"v": "3"}, {"v": "1-2"}, {"v": "2"}]}
+for i, x in enumerate(tn):
+    add("tonum", "to_number(a[%d])" % i, tdoc3)
+    if "'" not in x and "\\" not in x:
+        add("tonum", "to_number('%s')" % x, tdoc3)
+for t in ["a[*].to_number(@)", "map(&to_number(@), a)", "sort_by(rows, &to_number(v))", "max_by(rows, &to_number(v))", "rows[*].to_number(v)", "a[?to_number(@) == `null`] | length(@)",
+          "rows[?to_number(v) > `1`].v", "not_null(to_number(a[0]), 'dflt')", "[to_number(a[1]), to_number(a[2])]", "to_number(a[0]) || to_number(a[23])"]:
+    add("tonum", t, tdoc3)
+
+# ---------------------------------------------------------------- zeros
+# zeros of both signs (documents built with the sign bit set; JSON literals written -0.0): one number under every comparison, sort and extreme
+zdoc2 = {"a": -0.0, "b": 0, "c": 0.0, "l": [-1, -0.0, 0, 1], "accounts": [{"id": "x", "balance": -0.0}, {"id": "y", "balance": -2}, {"id": "z", "balance": 3}, {"id": "w", "balance": 0}],
+         "r": [{"k": 0, "n": "a"}, {"k": -0.0, "n": "b"}, {"k": 0, "n": "c"}, {"k": -0.0, "n": "d"}, {"k": -1, "n": "e"}, {"k": 2, "n": "f"}]}
+for op in OPS:
+    for x, y in [("a", "`0`"), ("a", "b"), ("`0`", "`-0.0`"), ("`0.0`", "a"), ("b", "a"), ("a", "c"), ("`-0.0`", "a"), ("a", "a"), ("a", "`-0`")]:
+        add("zeros", "%s %s %s" % (x, op, y), zdoc2)
+    add("zeros", "l[?@ %s `0`]" % op, zdoc2)
+    add("zeros", "l[?@ %s `-0.0`]" % op, zdoc2)
+    add("zeros", "accounts[?balance %s `0`].id" % op, zdoc2)
+    add("zeros", "r[?k %s a].n" % op, zdoc2)
+for t in ["sort(l)", "max(l[1:3])", "min(l[1:3])", "sort_by(r, &k)[*].n", "max_by(r[:4], &k).n", "min_by(r[:4], &k).n", "sort_by(accounts, &balance)[*].id", "contains(l, `0`)", "contains([a], b)",
+          "abs(a)", "ceil(a)", "floor(a)", "to_string(b)", "sum([a, b])", "avg([a, c])", "[a, b, c] | sort(@)", "l[?@ == a]", "reverse(sort(l))", "not_null(a)", "type(a)", "a || 'x'", "!a"]:
+    add("zeros", t, zdoc2)
+
 R6X = ["bsruns"]
 
 out = os.path.join(VERIF, "spec", "gen", "eval_pools.ndjson")
 with open(out, "w") as f:
     for c in cases:
         f.write(json.dumps(c) + "\n")
+def depth(t):
+    return 1 + max([depth(x) for x in t.get("a", [])] + [depth(m["v"]) for m in t.get("o", [])] + [0])
+assert max(depth(d) for d in docs) <= 40, "a pooled document is too deep for the interchange files"
 with open(out + ".docs", "w") as f:
     f.write(json.dumps({"docs": docs}) + "\n")
 from collections import Counter
